@@ -1,23 +1,29 @@
 #!/usr/bin/env python3
-"""keepseeds.py <Cxx> ...: copy confirmed seeds from /var/tmp/wt/<Cxx>/seeded/N to /verif/seeded/<Cxx>-N/"""
+"""keepseeds.py [--root DIR --offset K] <Cxx> ...: copy confirmed seeds from DIR/<Cxx>/seeded/N to /verif/seeded/<Cxx>-(N+K)/"""
 import sys, os, json, shutil, re
+ROOT='/var/tmp/wt'; OFF=0
+args=sys.argv[1:]
+while args and args[0].startswith('--'):
+    if args[0]=='--root': ROOT=args[1]
+    if args[0]=='--offset': OFF=int(args[1])
+    args=args[2:]
 conf = {}
-for l in open('/var/tmp/wt/confirm.log'):
-    m = re.match(r'RESULT /var/tmp/wt/(C\d+)/(\d) (.*)', l)
+for l in open(ROOT+'/confirm.log'):
+    m = re.match(r'RESULT '+re.escape(ROOT)+r'/(C\d+)/(\d) (.*)', l)
     if m: conf[(m.group(1), m.group(2))] = m.group(3)
-for cid in sys.argv[1:]:
+for cid in args:
     for v in ("1", "2"):
-        src = f"/var/tmp/wt/{cid}/seeded/{v}"
+        src = f"{ROOT}/{cid}/seeded/{v}"
         if not os.path.isdir(src): continue
         c = conf.get((cid, v), "")
         if c != "clean-demo=pass build=ok tests=same mutant-demo=fail":
             print("NOT CONFIRMED", cid, v, c); continue
-        dst = f"/verif/seeded/{cid}-{v}"
+        dst = f"/verif/seeded/{cid}-{int(v)+OFF}"
         if os.path.isdir(dst): shutil.rmtree(dst)
         shutil.copytree(src, dst)
         meta = json.load(open(os.path.join(dst, "meta.json")))
         meta["property"] = cid
         meta["confirmed"] = {"what_ran": "confirm_seed.sh in a scratch worktree of /repo@HEAD: demo on clean tree (pass); git apply patch.diff; go build ./...; go test -json ./... pass-set compared with baseline (identical, 700 pass); demo again (fails)", "result": c}
-        meta["demo_cmd"] = meta.get("demo_cmd", "").replace(f"/var/tmp/wt/{cid}", "<worktree>")
+        meta["demo_cmd"] = meta.get("demo_cmd", "").replace(f"{ROOT}/{cid}", "<worktree>")
         json.dump(meta, open(os.path.join(dst, "meta.json"), "w"), indent=1)
         print("kept", dst)
